@@ -367,6 +367,31 @@ pub fn check(prop: &str, tier: &str) -> i32 {
             exit_code = 1;
         }
     }
+    // VERIF_TRANSCRIPT_OUT: dump (run index, event-log hash, transcript hash) of the shipped build,
+    // sorted by index (used by tools/determinism.sh)
+    if let Ok(path) = std::env::var("VERIF_TRANSCRIPT_OUT") {
+        let mut rows: Vec<(u64, u64, u64)> = Vec::new();
+        for (v, p) in &transcript_files {
+            if *v != 0 {
+                continue;
+            }
+            if let Ok(b) = std::fs::read(p) {
+                for c in b.chunks_exact(24) {
+                    rows.push((
+                        u64::from_le_bytes(c[0..8].try_into().expect("8")),
+                        u64::from_le_bytes(c[8..16].try_into().expect("8")),
+                        u64::from_le_bytes(c[16..24].try_into().expect("8")),
+                    ));
+                }
+            }
+        }
+        rows.sort();
+        let text: String = rows
+            .iter()
+            .map(|r| format!("{} {:016x} {:016x}\n", r.0, r.1, r.2))
+            .collect();
+        let _ = std::fs::write(path, text);
+    }
     // two builds: compare transcripts run by run
     let mut compared = 0u64;
     let mut divergences: Vec<u64> = Vec::new();
